@@ -619,6 +619,20 @@ def r6(rr, repo):
         exact = lit == '+' or not icase or (folded and lit == (lit.lower() if U(t.left).endswith('.lower()') else lit.upper()))
         rr.ob("the separator test treats every spelling the pattern accepts alike: the pattern is case-insensitive, so 'X' must select the same (aspect-keeping) mode as 'x'", exact, mod, asp[0],
               witness=f'{U(t)} with a {"case-insensitive" if icase else "case-sensitive"} pattern', key='size-aspect-case')
+    # a size with a zero side can never be honoured (OpenCV refuses it for every image): both parsers refuse it when the configuration is read
+    def zero_refused(fn_, names):
+        for r in [x for x in ast.walk(fn_) if isinstance(x, ast.If) and any(isinstance(y, ast.Raise) for y in x.body)]:
+            t = U(r.test).replace(' ', '')
+            if isinstance(r.test, ast.BoolOp) and isinstance(r.test.op, ast.Or) and all(isinstance(v, ast.UnaryOp) and isinstance(v.op, ast.Not) for v in r.test.values) and len(r.test.values) == 2:
+                return r
+            if all(f'{n_}<1' in t or f'{n_}<=0' in t or f'{n_}==0' in t for n_ in names):
+                return r
+        return None
+    zr = zero_refused(nc, ['xform.width', 'xform.height'])
+    rr.ob('Util.normalize_config refuses a size whose width or height is 0', zr is not None, mod, zr if zr is not None else nc, witness=U(zr.test)[:80] if zr is not None else 'no such test', key='size-zero-refused|util')
+    _, vps = repo.find(f'{VI}::parse_size')
+    zv = zero_refused(vps, ['int(m.group(1))', 'int(m.group(3))'])
+    rr.ob('the video reader refuses a size whose width or height is 0', zv is not None, repo.module(VI), zv if zv is not None else vps, witness=U(zv.test)[:80] if zv is not None else 'no such test', key='size-zero-refused|video')
     un5 = [n for n in unp if len(n.targets[0].elts) == 5]
     for n in un5:
         names = [U(e) for e in n.targets[0].elts]
